@@ -610,4 +610,45 @@ example (res : Atoms) (h : replaceCore exS2 exP2 exR2 ([] ++ exM2a :: [exM2b]) f
   rw [hL (by decide)]
   decide
 
+/-! ### the hypothesis `hkeep` is necessary (known finding C06-retained-atom-removed-by-another-match) -/
+
+/-- chain C–C–C; the pattern C–C occurs at (0,1) and at (1,2) -/
+def exS3 : Atoms :=
+  { Atoms.empty with
+    atoms := [⟨0, ⟨2, 5, 5⟩, 1, 0, []⟩, ⟨0, ⟨7/2, 5, 5⟩, 2, 0, []⟩, ⟨0, ⟨5, 5, 5⟩, 3, 0, []⟩]
+    typeElems := ["C"], typeLabels := ["C_s"], typeMasses := [12]
+    cell := some ⟨⟨20, 0, 0⟩, ⟨0, 20, 0⟩, ⟨0, 0, 20⟩⟩ }
+
+def exP3 : Atoms :=
+  { Atoms.empty with
+    atoms := [⟨0, ⟨0, 0, 0⟩, 0, 0, []⟩, ⟨0, ⟨3/2, 0, 0⟩, 0, 0, []⟩]
+    typeElems := ["C"], typeLabels := ["C"], typeMasses := [12] }
+
+/-- keeps the first carbon, turns the second into N, one C–N bond -/
+def exR3 : Atoms :=
+  { Atoms.empty with
+    atoms := [⟨0, ⟨0, 0, 0⟩, -1, 0, []⟩, ⟨1, ⟨3/2, 0, 0⟩, -2, 0, []⟩]
+    bonds := ⟨[⟨[0, 1], 0, []⟩], ["450.0 1.35"], []⟩
+    typeElems := ["C", "N"], typeLabels := ["C_r", "N_r"], typeMasses := [12, 14] }
+
+def exM3a : PlacedMatch := ⟨[0, 1], [⟨2, 5, 5⟩, ⟨7/2, 5, 5⟩], Quat.identity⟩
+def exM3b : PlacedMatch := ⟨[1, 2], [⟨7/2, 5, 5⟩, ⟨5, 5, 5⟩], Quat.identity⟩
+
+/-- **retained_atom_removed_by_another_match** (evaluated witness).  For the SECOND match and the pattern's bond every
+    hypothesis of `replace_pattern_terms_once_overlap` holds (valid matches inside the structure, injective pairing,
+    well-formed distinct pattern terms, `Compat`, no later match at all) EXCEPT `hkeep`: the atom it retains (pattern
+    atom 0 ↦ structure atom 1) is listed and not retained by the first match, i.e. removed by it.  The replacement
+    succeeds without an error — no atom is removed twice, which C07 requires to be accepted — and the result has ONE
+    C–N bond for TWO replaced matches: the second match's bond is gone and its N (last atom) is left without a term.
+    So `hkeep` cannot be dropped, and no code can satisfy C06 and C07 on this input. -/
+theorem retained_atom_removed_by_another_match :
+    MatchOK exS3 exP3 exM3a ∧ MatchOK exS3 exP3 exM3b ∧ PairsInj (unchangedPairs exR3 exP3)
+    ∧ TermsOK exR3.bonds exR3.atoms.length ∧ DistinctUpToRev exR3.bonds.terms ∧ Compat exS3 exR3 .bond
+    ∧ (0, 1) ∈ matchMap (unchangedPairs exR3 exP3) false exM3b
+    ∧ 1 ∈ exM3a.idx ∧ 1 ∉ (matchMap (unchangedPairs exR3 exP3) false exM3a).map (·.2)
+    ∧ delOf (unchangedPairs exR3 exP3) false [exM3a, exM3b] = [1, 2]
+    ∧ (match replaceCore exS3 exP3 exR3 [exM3a, exM3b] false false with
+        | .ok res => some (res.bonds.terms.map sig, res.atoms.map (·.ty), res.atoms.map (·.charge))
+        | .error _ => none) = some ([([0, 1], 0)], [1, 2, 2], [1, -2, -2]) := by decide +kernel
+
 end Mofun.C06
